@@ -23,6 +23,7 @@ NOT_YET = "check not built yet in this session (planned in DESIGN.md section 4);
 
 def main():
     props = [json.loads(l) for l in open(os.path.join(VERIF, "properties.jsonl"))]
+    accepted = set(open(os.path.join(VERIF, "tools", "claimed.txt")).read().split())
     checks, na = [], []
     served = {"grid": [], "tree": [], "bfs": []}
     for p in props:
@@ -32,7 +33,7 @@ def main():
         if os.path.exists(mp):
             m = json.load(open(mp))
         have = os.path.exists(os.path.join(VERIF, "mc", "checks", pid.lower() + ".py"))
-        if m and m.get("claimed") and have:
+        if m and m.get("claimed") and have and pid in accepted:
             for e in m["engine"].split("+"):
                 served[e].append(pid)
             checks.append({
